@@ -142,6 +142,8 @@ def gen_workload(rng, tier):
         return w
     table = ONE if op == "dump_one" else MANY
     fmt = rng.choice(sorted(table))
+    if op == "dump_one" and rng.random() < 0.4:
+        fmt = rng.choice(["fchk", "molden", "molekel", "wfn", "wfx", "json_qcschema"])  # formats with a prepare_dump
     name, recipes = table[fmt]
     w["fmt"] = fmt
     w["select"] = sel
@@ -185,7 +187,7 @@ def gen_workload(rng, tier):
         k = 1 if rng.random() < 0.6 else rng.randint(1, len(req))
         attrs_ = sorted(rng.sample(req, k))
         w["defect"] = {"cls": "none_attrs", "attrs": attrs_, "frame": 0 if rng.random() < 0.5 else rng.randrange(len(objs))}
-    elif objs and r < 0.55 and op == "dump_one":
+    elif objs and r < (0.70 if fmt in WFN_SOURCES else 0.55) and op == "dump_one":
         classes = [c for c, (_m, fmts, _cv) in sorted(INCOMPAT.items()) if fmt in fmts]
         if classes:
             w["defect"] = {"cls": rng.choice(classes), "frame": 0}
